@@ -103,7 +103,8 @@ def run(ck, replay=None):
                     if msg not in ck.known_hits: ck.known_hits.append(msg)
                     continue
                 # F7: the search space is not (kept) orthonormal: non-orthonormal user guess, or zero correction vectors from exactly converged Ritz pairs of a reducible matrix
-                if kind in ('norm', 'orth') and 'F7' in known and w7_fails and (guess == 'raw' or d['reducible'] or d['decoupled']):
+                collapsed = any(x < 1e-6 for x in d['nrm'][:nev])      # a returned 'vector' that is zero to rounding: the zero-correction mechanism
+                if kind in ('norm', 'orth') and 'F7' in known and w7_fails and (guess == 'raw' or d['reducible'] or d['decoupled'] or collapsed):
                     msg = 'F7 Davidson search space not orthonormal (user guess taken as is / zero correction vectors of exact Ritz pairs): Successful with non-unit or non-orthonormal vectors (witness: %s)' % W7
                     if msg not in ck.known_hits: ck.known_hits.append(msg)
                     continue
